@@ -269,11 +269,11 @@ class Direct:
     def Select(self, f):
         return self._op("Select", f)
 
-    def Where(self, f):
-        return self._op("Where", f)
+    def Where(self, filter):            # parameter names as ObjectStream's: a lambda may be passed by keyword
+        return self._op("Where", filter)
 
-    def SelectMany(self, f):
-        return self._op("SelectMany", f)
+    def SelectMany(self, func):
+        return self._op("SelectMany", func)
 
     def _term(self, name, *args):
         if self.err is not None:
@@ -521,9 +521,16 @@ def DCT(ctor, items):
 
 
 class Stage:
-    def __init__(self, parent: int, op: str, mode: str, lam: str, item_in, item_out):
+    def __init__(self, parent: int, op: str, mode: str, lam: str, item_in, item_out, kw=False, rep=None):
         self.parent, self.op, self.mode, self.lam = parent, op, mode, lam
         self.item_in, self.item_out = item_in, item_out
+        self.kw = kw            # the lambda is passed by keyword: Select(f=lambda ...), Where(filter=...), SelectMany(func=...)
+        self.rep = rep          # (group id, how, captured name, value): the lambda is *written once* and turned into a
+        #                         query once per member of the group, each time with another value of the captured name;
+        #                         how = "loop" | "local-factory" | "global-factory" | "rebind"
+
+
+KW_NAME = {"Select": "f", "Where": "filter", "SelectMany": "func"}
 
 
 class Program:
@@ -541,22 +548,60 @@ class Program:
         self.style = "lines"
         self.expect_refusal = False
 
+    def groups(self) -> Dict[int, List[int]]:
+        g: Dict[int, List[int]] = {}
+        for i, st in enumerate(self.stages):
+            if st.rep is not None:
+                g.setdefault(st.rep[0], []).append(i)
+        return g
+
     def source(self) -> str:
+        groups = self.groups()
         out = [PRELUDE, class_source(self.cm), ""]
         out += self.globals_src
+        for gid, members in sorted(groups.items()):
+            st = self.stages[members[0]]
+            if st.rep[1] == "global-factory":
+                out += ["", "", "def _mk%d(src, %s):" % (gid, st.rep[2]), "    return src.%s(%s)" % (st.op, self._arg(st))]
         out += ["", "", "def build(ds):"]
         out += ["    " + s for ln in self.locals_src for s in ln.split("\n")]
         out.append("    s0 = ds")
         fluent = (self.style == "fluent" and self.stages and all(st.parent == i for i, st in enumerate(self.stages))
-                  and all(s == len(self.stages) for s, _ in self.outputs))
+                  and all(s == len(self.stages) for s, _ in self.outputs) and not groups)
         if fluent:
             out.append("    s%d = (s0" % len(self.stages))
             for st in self.stages:
                 out.append("          .%s(%s)" % (st.op, self._arg(st)))
             out[-1] += ")"
         else:
+            done = set()
             for i, st in enumerate(self.stages):
-                out.append("    s%d = s%d.%s(%s)" % (i + 1, st.parent, st.op, self._arg(st)))
+                if st.rep is None:
+                    out.append("    s%d = s%d.%s(%s)" % (i + 1, st.parent, st.op, self._arg(st)))
+                    continue
+                gid, how, kname, _ = st.rep
+                if gid in done:
+                    continue
+                done.add(gid)
+                members = groups[gid]
+                vals = [self.stages[m].rep[3] for m in members]
+                if how == "loop":
+                    out.append("    _r%d = []" % gid)
+                    out.append("    for %s in (%s,):" % (kname, ", ".join(repr(v) for v in vals)))
+                    out.append("        _r%d.append(s%d.%s(%s))" % (gid, st.parent, st.op, self._arg(st)))
+                    out.append("    %s, = _r%d" % (", ".join("s%d" % (m + 1) for m in members), gid))
+                elif how == "rebind":
+                    out.append("    def _mk%d(src):" % gid)
+                    out.append("        return src.%s(%s)" % (st.op, self._arg(st)))
+                    for m, v in zip(members, vals):
+                        out.append("    %s = %r" % (kname, v))
+                        out.append("    s%d = _mk%d(s%d)" % (m + 1, gid, self.stages[m].parent))
+                else:
+                    if how == "local-factory":
+                        out.append("    def _mk%d(src, %s):" % (gid, kname))
+                        out.append("        return src.%s(%s)" % (st.op, self._arg(st)))
+                    for m, v in zip(members, vals):
+                        out.append("    s%d = _mk%d(s%d, %r)" % (m + 1, gid, self.stages[m].parent, v))
         rets = []
         for s, term in self.outputs:
             rets.append("s%d" % s if term is None else "s%d.%s(%s)" % (s, term[0], term[1]))
@@ -566,7 +611,7 @@ class Program:
     @staticmethod
     def _arg(st: Stage) -> str:
         if st.mode == "callable":
-            return st.lam
+            return ("%s=%s" % (KW_NAME[st.op], st.lam)) if st.kw else st.lam
         if st.mode == "string":
             return repr(st.lam)
         return "L(%r)" % st.lam
@@ -581,7 +626,8 @@ class Program:
 
     def describe(self) -> dict:
         return {"typed": self.typed, "features": sorted(self.features),
-                "stages": [{"parent": s.parent, "op": s.op, "mode": s.mode, "lambda": s.lam} for s in self.stages],
+                "stages": [{"parent": s.parent, "op": s.op, "mode": s.mode, "lambda": s.lam, "kw": s.kw,
+                            "written_once": list(s.rep) if s.rep else None} for s in self.stages],
                 "outputs": [[s, list(t) if t else None] for s, t in self.outputs]}
 
 
@@ -600,6 +646,8 @@ class ProgGen:
         self.fresh = 0
         self.caps: Dict[str, Tuple[str, Any]] = {}     # captured name -> (scope, type)
         self.hcount = 0
+        self.gcount = 0
+        self.in_helper = 0
         self.reserved: set = set()                     # the parameter of the lambda being written (used through projections)
         self.force_scope = None                        # inside a module-level helper only module globals are visible
 
@@ -671,7 +719,11 @@ class ProgGen:
 
     def capture_of(self, kind: str, env) -> str:
         have = [n for n, (sc, k) in self.caps.items() if k == kind and n not in {x for x, _ in env}
-                and (self.force_scope is None or sc == self.force_scope)]
+                and (self.force_scope is None or sc == self.force_scope)
+                and not (self.in_helper and n.startswith("kk"))]     # a factory's parameter is not visible to a helper
+        must = [n for n in have if n.startswith("kk")]
+        if must and self.r.random() < 0.6:
+            return self.r.choice(must)
         if have and self.r.random() < 0.5:
             return self.r.choice(have)
         return self.new_capture(kind, env)
@@ -685,6 +737,7 @@ class ProgGen:
         kind = r.choice(["int2", "int2", "rec", "seq", "int1"])
         saved_mode, saved_scope = self.mode, self.force_scope
         self.mode = "callable"
+        self.in_helper += 1
         if scope == "g":
             self.force_scope = "g"
         if kind == "int2":
@@ -707,6 +760,7 @@ class ProgGen:
             body = "%s.Select(lambda %s: %s)" % (src, b, self.int_expr([(ps[0], REC(cls)), (b, REC(elt))], 1, top=False))
             kind = "seq:" + cls
         self.mode, self.force_scope = saved_mode, saved_scope
+        self.in_helper -= 1
         line = "def %s(%s): return %s" % (name, ", ".join(ps), body)
         (self.p.globals_src if scope == "g" else self.p.locals_src).append(line)
         self.p.helpers[name] = (ps, body, scope)
@@ -1071,12 +1125,13 @@ class ProgGen:
         return DCT(ctor, [(n, self.result_type(env, d - 1)) for n in names])
 
     # ------------------------------------------------------------------ stages
-    def lambda_for(self, op: str, item_t, mode: str) -> Optional[Tuple[str, Any]]:
-        """source text of a lambda over an item of type item_t, and the item type of the resulting stream"""
+    def lambda_for(self, op: str, item_t, mode: str, must_use: Optional[str] = None) -> Optional[Tuple[str, Any]]:
+        """source text of a lambda over an item of type item_t, and the item type of the resulting stream;
+        must_use: a captured integer the body has to mention below its top node"""
         r = self.r
         self.mode = mode
         p = r.choice(["e", "j", "t", "x", "p", "ev"])
-        if mode == "callable" and self.caps and r.random() < 0.05:
+        if mode == "callable" and self.caps and r.random() < 0.05 and must_use is None:
             p = r.choice(sorted(self.caps))
             self.p.features.add("parameter-hides-capture")
         projs = self.projections(p, item_t)
@@ -1108,6 +1163,18 @@ class ProgGen:
             out_t = elt
         if body is None:
             return None
+        if must_use is not None:
+            import re
+            if p == must_use or re.search(r"lambda %s\b|for %s in" % (must_use, must_use), body):
+                return None
+            used = len(re.findall(r"\b%s\b" % re.escape(must_use), body))
+            if not used or body.strip("()") == must_use:
+                if op == "Where":
+                    body = "((%s <= %s) or %s)" % (self.int_leaf(env), must_use, body)
+                elif op == "Select":
+                    body, out_t = "(%s, %s)" % (body, must_use), TUP([out_t, INT])
+                else:
+                    return None
         for nm, text in alias.items():
             if nm != p:
                 body = body.replace(nm, text)
@@ -1143,6 +1210,9 @@ class ProgGen:
             parent = cand[-1] if r.random() < 0.75 else r.choice(cand)
             op = r.choice(["Select", "Select", "Select", "Where", "Where", "SelectMany"])
             mode = r.choice(["callable", "callable", "callable", "string", "ast"])
+            if mode == "callable" and op != "SelectMany" and r.random() < 0.22 and len(p.stages) + 2 <= max(n, 2):
+                if self.repeat_group(parent, op, types_):
+                    continue
             got = self.lambda_for(op, types_[parent], mode)
             if got is None:
                 continue
@@ -1151,7 +1221,10 @@ class ProgGen:
                 ast.parse(lam)
             except SyntaxError:
                 continue
-            p.stages.append(Stage(parent, op, mode, lam, types_[parent], out_t))
+            kw = mode == "callable" and r.random() < 0.12
+            if kw:
+                p.features.add("lambda-by-keyword")
+            p.stages.append(Stage(parent, op, mode, lam, types_[parent], out_t, kw=kw))
             types_.append(out_t)
         if not p.stages:
             return self.program()
@@ -1178,6 +1251,49 @@ class ProgGen:
         if any(st.parent != i for i, st in enumerate(p.stages)):
             p.features.add("branching")
         return p
+
+    def repeat_group(self, parent: int, op: str, types_: list) -> bool:
+        """One lambda written once and turned into a query two or three times, each time with another value of a
+        captured integer: in a for loop, through a local or a module-level factory function, or through a factory
+        whose closure variable is rebound between the calls."""
+        r = self.r
+        p = self.p
+        how = r.choice(["loop", "local-factory", "global-factory", "rebind"])
+        self.gcount += 1
+        gid = self.gcount
+        kname = "kk%d" % gid
+        scope = "g" if how == "global-factory" else "l"
+        saved_scope = self.force_scope
+        if how == "global-factory":
+            self.force_scope = "g"
+        self.caps[kname] = (scope, "int")
+        try:
+            got = None
+            for _ in range(4):
+                got = self.lambda_for(op, types_[parent], "callable", must_use=kname)
+                if got is not None:
+                    break
+        finally:
+            self.force_scope = saved_scope
+            del self.caps[kname]
+        if got is None:
+            return False
+        lam, out_t = got
+        try:
+            ast.parse(lam)
+        except SyntaxError:
+            return False
+        m = r.choice([2, 2, 3])
+        vals = r.sample(range(-2, 7), m)
+        kw = r.random() < 0.1
+        par = parent
+        for v in vals:
+            p.stages.append(Stage(par, op, "callable", lam, types_[parent], out_t, kw=kw, rep=(gid, how, kname, v)))
+            types_.append(out_t)
+            if op == "Where" and how != "loop" and r.random() < 0.5:
+                par = len(p.stages)          # chain the filters: the next call is made on the stream just built
+        p.features.add("written-once:" + how)
+        return True
 
     def refused_program(self) -> Program:
         """A short chain that captures a value that cannot be sent as a literal: the library must refuse it."""
@@ -1263,17 +1379,17 @@ def make_dataset_class():
         def _note(self, op, f):
             self.calls.append((op, snapshot(f) if callable(f) else None))
 
-        def Select(self, f, *a, **k):
-            self._note("Select", f)
-            return super().Select(f, *a, **k)
+        def Select(self, *a, **k):
+            self._note("Select", a[0] if a else k.get("f"))
+            return super().Select(*a, **k)
 
-        def Where(self, f, *a, **k):
-            self._note("Where", f)
-            return super().Where(f, *a, **k)
+        def Where(self, *a, **k):
+            self._note("Where", a[0] if a else k.get("filter"))
+            return super().Where(*a, **k)
 
-        def SelectMany(self, f, *a, **k):
-            self._note("SelectMany", f)
-            return super().SelectMany(f, *a, **k)
+        def SelectMany(self, *a, **k):
+            self._note("SelectMany", a[0] if a else k.get("func"))
+            return super().SelectMany(*a, **k)
 
     return RecordingDataset
 
